@@ -22,7 +22,8 @@
 (***************************************************************************)
 EXTENDS DipExpr, Json, IOUtils, TLC
 
-CONSTANTS Mode, MaxLen, Prune, Source, Emit, Cfgs
+CONSTANTS Mode, MaxLen, Prune, Source, Emit, Cfgs,
+          EmitMax      \* unpruned enumeration: records are printed for strings up to this length only
 
 FileItems == IF Source = "file" THEN JsonDeserialize(IOEnv.DIPEXPR_IN) ELSE <<>>
 NFile == Len(FileItems)
@@ -111,9 +112,12 @@ Out(v) == IF v.st = "ok" THEN (IF v.isq THEN [k |-> "q", q |-> v.q] ELSE [k |-> 
           ELSE [k |-> "skip"]
 Raise == [k |-> "raise"]
 BaseUnits == <<"m", "s", "g">>
-\* a unit of another dimension than dim
-WrongUnits(dim) == IF dim = <<1, 0, 0>> THEN <<"", "s", "">> ELSE <<"m", "", "">>
-WrongDim(dim) == IF dim = <<1, 0, 0>> THEN <<0, 1, 0>> ELSE <<1, 0, 0>>
+\* a unit of another dimension than dim - and not of the inverse dimension either, between which
+\* the units module converts (C04): one base dimension that dim does not contain
+WrongDim(dim) == IF dim[1] = 0 THEN <<1, 0, 0>> ELSE IF dim[2] = 0 THEN <<0, 1, 0>>
+                 ELSE IF dim[3] = 0 THEN <<0, 0, 1>> ELSE <<dim[1] + 1, 0, 0>>
+WrongUnits(dim) == LET w == WrongDim(dim) IN
+                   <<IF w[1] # 0 THEN "m" ELSE "", IF w[2] # 0 THEN "s" ELSE "", IF w[3] # 0 THEN "g" ELSE "">>
 Req(us, dim, out) == [us |-> us, dim |-> dim, out |-> out, sc |-> ReqScale(us, dim)]
 NumReqs(v, env) ==
   IF v.dim = NoDim THEN << Req(<<"", "", "">>, NoDim, Out(v)), Req(WrongUnits(NoDim), WrongDim(NoDim), Raise) >>
@@ -140,20 +144,28 @@ NumRecord ==
                \cup (IF UsesCustom(s) THEN {"custom_unit_operand"} ELSE {})]
 NumRefines == NParse(s).ok => NMach(s) = NTree(s)
 
-LogRecord ==
-  LET cls == LClass(s)  it == LTree(s)  mt == LMach(s)
-      v == IF LParse(s).ok THEN LEval(LParse(s).tree) ELSE LSt("illtyped")
-  IN [mode |-> "log", id |-> idx, ci |-> ci, env |-> LogCfg(ci).env, s |-> s, cls |-> cls, itree |-> it, mtree |-> mt,
+\* everything the record and the refinement check need, computed once per state
+LogInfo ==
+  LET pr == LParse(s)
+      v == IF pr.ok THEN LEval(pr.tree) ELSE LSt("illtyped")
+      cls == IF ~pr.ok THEN "ill"
+             ELSE IF v.st = "illtyped" \/ v.ty # "bool" THEN "illtyped"
+             ELSE IF v.st = "unspec" \/ DoubleNot(s) THEN "unspecified" ELSE "value"
+      it == IF pr.ok THEN DropPar(pr.tree) ELSE NERR
+      mt == LMach(s)
+      mv == IF LTreeOK(mt) THEN MEval(mt) ELSE MErr({})
+      mout == IF mt = NERR THEN "E" ELSE IF ~LTreeOK(mt) THEN "U" ELSE IF mv.num THEN "U" ELSE mv.r
+  IN [ok |-> pr.ok, cls |-> cls, it |-> it, mt |-> mt, mout |-> mout,
       ideal |-> IF cls = "value" THEN (IF v.b THEN "T" ELSE "F") ELSE "",
-      mach |-> LMachOut(s),
-      tags |-> LFeatures(s) \cup LMachDev(s)
-               \cup (IF LogCfg(ci).env = "custom" THEN {"custom_unit_env"} ELSE {})
-               \cup (IF UsesCustom(s) THEN {"custom_unit_operand"} ELSE {})]
-LogRefines ==
-  /\ (LParse(s).ok /\ ~DoubleNot(s)) => LMach(s) = LTree(s)
-  /\ LClass(s) = "value" =>
-        LET m == LMachOut(s)  i == IF LEval(LParse(s).tree).b THEN "T" ELSE "F"
-        IN m = i \/ m = "U" \/ (LFeatures(s) \cup LMachDev(s)) # {}
+      tags |-> (IF pr.ok THEN CmpFeatures(pr.tree, 1).f ELSE {}) \cup (IF LTreeOK(mt) THEN mv.dev ELSE {})]
+LogRecord(i) ==
+  [mode |-> "log", id |-> idx, ci |-> ci, env |-> LogCfg(ci).env, s |-> s, cls |-> i.cls, itree |-> i.it, mtree |-> i.mt,
+   ideal |-> i.ideal, mach |-> i.mout,
+   tags |-> i.tags \cup (IF LogCfg(ci).env = "custom" THEN {"custom_unit_env"} ELSE {})
+                   \cup (IF UsesCustom(s) THEN {"custom_unit_operand"} ELSE {})]
+LogRefines(i) ==
+  /\ (i.ok /\ ~DoubleNot(s)) => i.mt = i.it
+  /\ i.cls = "value" => (i.mout = i.ideal \/ i.mout = "U" \/ i.tags # {})
 
 TmplRecord ==
   [mode |-> "tmpl", id |-> idx, ci |-> ci, env |-> "plain", s |-> s, cls |-> TClass(s), ideal |-> TIdeal(s), mach |-> TMach(s),
@@ -169,14 +181,18 @@ Meta == [mode |-> "meta",
          units |-> [u \in UnitSyms |-> UText(u)], custom |-> CustomUnits,
          tplain |-> [t \in TmplToks |-> TPlain(t)], fn1 |-> Fn1Table]
 
-\* which strings are printed: everything when all strings are enumerated; in the pruned (deep)
-\* enumeration only complete expressions of the grammar that are well typed
-Complete == CASE Mode = "num" -> NParse(s).ok
-              [] Mode = "log" -> LParse(s).ok /\ LClass(s) # "illtyped"
-              [] OTHER -> TRUE
-Record == CASE Mode = "num" -> NumRecord [] Mode = "log" -> LogRecord [] Mode = "tmpl" -> TmplRecord
+\* which strings are printed: every string up to EmitMax tokens when all strings are enumerated; in
+\* the pruned (deep) enumeration only complete expressions of the grammar that are well typed
+Printed(complete) == Emit /\ s # <<>> /\ (Source = "file" \/ (IF Prune THEN complete ELSE Len(s) <= EmitMax))
+FirstCfg == CHOOSE c \in Cfgs : \A c2 \in Cfgs : c <= c2
 Refines ==
-  /\ (Emit /\ s = <<>> /\ Source = "enum" /\ ci = CHOOSE c \in Cfgs : \A c2 \in Cfgs : c <= c2) => PrintT(ToJson(Meta))
-  /\ (Emit /\ s # <<>> /\ (~Prune \/ Source = "file" \/ Complete)) => PrintT(ToJson(Record))
-  /\ s # <<>> => CASE Mode = "num" -> NumRefines [] Mode = "log" -> LogRefines [] Mode = "tmpl" -> TmplRefines
+  /\ (Emit /\ s = <<>> /\ Source = "enum" /\ ci = FirstCfg) => PrintT(ToJson(Meta))
+  /\ s # <<>> =>
+       CASE Mode = "num" -> /\ Printed(NParse(s).ok) => PrintT(ToJson(NumRecord))
+                            /\ NumRefines
+         [] Mode = "log" -> LET i == LogInfo IN
+                            /\ Printed(i.ok /\ i.cls # "illtyped") => PrintT(ToJson(LogRecord(i)))
+                            /\ LogRefines(i)
+         [] Mode = "tmpl" -> /\ Printed(TRUE) => PrintT(ToJson(TmplRecord))
+                             /\ TmplRefines
 =============================================================================
